@@ -911,56 +911,63 @@ pub fn run_prop<P: Prop>(prop: P, opts: &Opts) -> ! {
         }
     }
 
-    // ---------------- second build profile (same check, binary built without overflow checks / debug assertions)
-    let mut second: Option<serde_json::Value> = None;
+    // ---------------- further builds of the same check (VERIF_SECOND_BIN = "description=path;description=path"):
+    // a binary without overflow checks / debug assertions, and one against fpdec with feature packed and
+    // without its default features
+    let mut second: Vec<serde_json::Value> = Vec::new();
     if violations.is_empty() && missing.is_empty() {
-        if let Ok(bin) = std::env::var("VERIF_SECOND_BIN") {
-            if !bin.is_empty() && std::path::Path::new(&bin).exists() {
-                // keep the watchdog quiet while the second build runs (it has its own watchdog)
-                let waiting = Arc::new(AtomicBool::new(true));
-                {
-                    let waiting = waiting.clone();
-                    std::thread::spawn(move || {
-                        while waiting.load(Ordering::Relaxed) {
-                            tick();
-                            std::thread::sleep(std::time::Duration::from_millis(500));
-                        }
-                    });
+        let list = std::env::var("VERIF_SECOND_BIN").unwrap_or_default();
+        for entry in list.split(';').filter(|e| !e.is_empty()) {
+            let (desc, bin) = match entry.rsplit_once('=') {
+                Some((d, b)) => (d.to_string(), b.to_string()),
+                None => ("opt-level 3, overflow-checks off, debug-assertions off".to_string(), entry.to_string()),
+            };
+            if !std::path::Path::new(&bin).exists() {
+                println!("INCONCLUSIVE: {bin} ({desc}) does not exist");
+                std::process::exit(2);
+            }
+            // keep the watchdog quiet while the other build runs (it has its own watchdog)
+            let waiting = Arc::new(AtomicBool::new(true));
+            {
+                let waiting = waiting.clone();
+                std::thread::spawn(move || {
+                    while waiting.load(Ordering::Relaxed) {
+                        tick();
+                        std::thread::sleep(std::time::Duration::from_millis(500));
+                    }
+                });
+            }
+            let out = std::process::Command::new(&bin)
+                .arg(id)
+                .args(["--tier", opts.tier.name(), "--seed", &(opts.seed as i128).to_string(), "--jobs", &opts.jobs.to_string(), "--no-evidence"])
+                .args(opts.cases_override.map(|c| vec!["--cases".to_string(), c.to_string()]).unwrap_or_default())
+                .env_remove("VERIF_SECOND_BIN")
+                .output();
+            waiting.store(false, Ordering::Relaxed);
+            match out {
+                Err(e) => {
+                    println!("INCONCLUSIVE: cannot run {bin}: {e}");
+                    std::process::exit(2);
                 }
-                let out = std::process::Command::new(&bin)
-                    .arg(id)
-                    .args(["--tier", opts.tier.name(), "--seed", &(opts.seed as i128).to_string(), "--jobs", &opts.jobs.to_string(), "--no-evidence"])
-                    .args(opts.cases_override.map(|c| vec!["--cases".to_string(), c.to_string()]).unwrap_or_default())
-                    .env_remove("VERIF_SECOND_BIN")
-                    .output();
-                waiting.store(false, Ordering::Relaxed);
-                match out {
-                    Err(e) => {
-                        println!("INCONCLUSIVE: cannot run {bin}: {e}");
-                        std::process::exit(2);
-                    }
-                    Ok(o) => {
-                        let text = String::from_utf8_lossy(&o.stdout).to_string();
-                        let code = o.status.code().unwrap_or(2);
-                        if code != 0 {
-                            println!("--- build without overflow checks / debug assertions ({bin}):");
-                            for l in text.lines().filter(|l| !l.starts_with("labels:")) {
-                                println!("{l}");
-                            }
-                            std::process::exit(if code == 1 { 1 } else { 2 });
+                Ok(o) => {
+                    let text = String::from_utf8_lossy(&o.stdout).to_string();
+                    let code = o.status.code().unwrap_or(2);
+                    if code != 0 {
+                        println!("--- build [{desc}] ({bin}):");
+                        for l in text.lines().filter(|l| !l.starts_with("labels:")) {
+                            println!("{l}");
                         }
-                        let evals = text
-                            .lines()
-                            .find(|l| l.starts_with(id) && l.contains("evaluations="))
-                            .and_then(|l| l.split("evaluations=").nth(1))
-                            .and_then(|r| r.split(' ').next())
-                            .and_then(|n| n.parse::<u64>().ok())
-                            .unwrap_or(0);
-                        for l in text.lines().filter(|l| l.starts_with("KNOWN-FINDING")) {
-                            let _ = l; // already reported by the first build
-                        }
-                        second = Some(serde_json::json!({"profile": "opt-level 3, overflow-checks off, debug-assertions off", "evaluations": evals, "violations": 0}));
+                        std::process::exit(if code == 1 { 1 } else { 2 });
                     }
+                    let evals = text
+                        .lines()
+                        .find(|l| l.starts_with(id) && l.contains("evaluations="))
+                        .and_then(|l| l.split("evaluations=").nth(1))
+                        .and_then(|r| r.split(' ').next())
+                        .and_then(|n| n.parse::<u64>().ok())
+                        .unwrap_or(0);
+                    // KNOWN-FINDING lines were already reported by the first build
+                    second.push(serde_json::json!({"build": desc, "evaluations": evals, "violations": 0}));
                 }
             }
         }
@@ -1003,8 +1010,8 @@ pub fn run_prop<P: Prop>(prop: P, opts: &Opts) -> ! {
         cov.insert("exhaustive".into(), any_exhaustive.into());
     }
     cov.insert("workers".into(), jobs.into());
-    if let Some(sec) = second {
-        cov.insert("second_build_profile".into(), sec);
+    if !second.is_empty() {
+        cov.insert("other_builds".into(), serde_json::Value::Array(second));
     }
     for (k, v) in prop.extra_coverage(opts.tier) {
         cov.insert(k, v);
